@@ -61,7 +61,7 @@ def run(facts, tier):
                   "text": "the field width of compressed compact theta images covers every delta of the ordered hashes, the first one counted from zero"})
     o = reader_assigns.obligations(facts)
     obs += o
-    rules.append({"rule": "reader conditional assignments", "instances": len([x for x in o if x["status"] != "info"]), "min": 40,
+    rules.append({"rule": "reader conditional assignments", "instances": len([x for x in o if x["status"] != "info"]), "min": 30,
                   "text": "defaults and derived values a reader assigns to restored state only on some paths are still assigned under the reviewed branch conditions (spec/reader_assigns.json)"})
     o = layout_rules.estimation_state_written(facts)
     obs += o
